@@ -13,7 +13,8 @@ import Driver.C04
       Every outcome is compared with the model; every measured allocation with what the MODEL's accounting of
       the decoder's own `make` calls says (`unmarshalAlloc`, `decodeAlloc`, `scanDestAlloc` in Orb/WKB.lean),
       and the model's figure with the property's bound `allocPerByte·len + allocFixed`.
-    `wkbnest <kind> <k> => ok | err … | crash … | timeout`   (decoded in a child process)
+    `wkbnest <kind> <k> => ok | err … | crash … | timeout`   (decoded in a child process; the outcome is
+      compared with what the decoders must say about `k` nested one-member multis / collections)
     `wkt` / `mvt` / `gj`: the hostile streams, judged by the handlers of C04 / C03 / C02; C05 adds the
       watchdog verdict and, for `mvt`, the property's own allocation bound against the INPUT length
       (C03 judges `UnmarshalGzipped` against the unzipped length). -/
@@ -100,29 +101,49 @@ def handleWkb (inp out : Toks) : String :=
                if asc > measuredBound mAsc len then s!"propfail alloc-unexplained wkb-scan measured={asc} model={mAsc} len={len}" else
                if stable != "1" then "propfail reencode-unstable" else
                if !agree then diff else
-               -- (2) the model's figure is within the property's bound (theorem for the stream decoder and for
-               --     every top-level type but the three multis; recorded finding for those)
+               -- (2) the model's figure is within the property's bound (theorems decode_alloc_le,
+               --     unmarshal_alloc_linear, scanDest_alloc_le: a failure here means model and proofs are out of step)
                if mAst > linearBound len then s!"propfail alloc-superlinear wkb-decode model={mAst} len={len}" else
-               if mAum > linearBound len then s!"propfail alloc-superlinear-nested-multi wkb-unmarshal model={mAum} len={len}" else
-               if mAsc > linearBound len then s!"propfail alloc-superlinear-nested-multi wkb-scan model={mAsc} len={len}" else
+               if mAum > linearBound len then s!"propfail alloc-superlinear wkb-unmarshal model={mAum} len={len}" else
+               if mAsc > linearBound len then s!"propfail alloc-superlinear wkb-scan model={mAsc} len={len}" else
+               -- (3) a returned value is nested no deeper than the decoders' limit, and the model's count of
+               --     simultaneously active Decode calls is within it (theorems decode_depth_le, *_result_depth_le)
+               if decodeDepth bs > Generated.Params.wkb_MaxCollectionDepth + 1 ||
+                  unmarshalDepth bs > Generated.Params.wkb_MaxCollectionDepth + 1 then "propfail recursion-depth wkb model" else
+               if (match unmarshal bs with | .ok (g, _) => decide (collDepth g > Generated.Params.wkb_MaxCollectionDepth) | _ => false)
+                 then "propfail result-too-deep wkb-unmarshal" else
                let typed := if d == .any then "" else if (j dsc).startsWith "ok" then " typed-ok" else " typed-err"
                if (j um).startsWith "ok" then "ok wkb-value" ++ typed else "ok wkb-error " ++ (j um) ++ typed
              | _, _, _ => "bad alloc")
           | _ => "bad flags")
        | _ => "bad output")
 
-/-- `wkbnest kind k`: only the implementation's outcome is judged (the nesting depths of interest are
-    beyond what the compiled model can recurse through; shallow nestings are `wkb` cases). -/
+/-- What the decoders must say about `k` one-member multi (kind mls, mpoly: `Unmarshal`) / collection
+    (kind coll: the stream decoder) headers around an empty member.  The inputs are up to 180 MB, too large
+    to be handed to the compiled model, but their outcome follows from the model in closed form:
+    a nested multi is the wrong member type (`scanMember`, theorem `nested_unmarshal_rejected`); `k`
+    collections around a line string are nested `k` deep (`decodeStream_encode` / `decodeStream_too_deep`
+    with `g` = the k-fold collection of an empty line string, whose encoding this input is). -/
+def nestExpect (kind : String) (k : Nat) : String :=
+  if kind == "coll" then (if k ≤ Generated.Params.wkb_MaxCollectionDepth then "ok" else "err toodeep")
+  else (if k ≤ 1 then "ok" else "err incorrect")
+
+/-- `wkbnest kind k`: a crash (a Go stack overflow is fatal) or a hang is a violation at any depth; a clean
+    outcome must be the expected one. -/
 def handleNest (inp out : Toks) : String :=
   match inp with
   | [kind, k] =>
-    (match out with
-     | ["ok"] => s!"ok wkbnest {kind}"
-     | "err" :: _ => s!"ok wkbnest {kind} err"
-     | ["crash", "stack-overflow"] => s!"propfail stack-overflow wkb-nesting {kind} depth={k}"
-     | "crash" :: w => "propfail process-crash wkbnest " ++ " ".intercalate w
-     | ["timeout"] => "propfail timeout wkbnest"
-     | _ => "bad output")
+    (match k.toNat? with
+     | none => "bad input"
+     | some kn =>
+       let want := nestExpect kind kn
+       (match out with
+        | ["crash", "stack-overflow"] => s!"propfail stack-overflow wkbnest {kind} depth={k}"
+        | "crash" :: w => "propfail process-crash wkbnest " ++ " ".intercalate w
+        | ["timeout"] => "propfail timeout wkbnest"
+        | ["ok"] => if want == "ok" then s!"ok wkbnest {kind}" else s!"diff {want}"
+        | "err" :: _ => if " ".intercalate out == want then s!"ok wkbnest {kind} err" else s!"diff {want}"
+        | _ => "bad output"))
   | _ => "bad input"
 
 /-- the property's allocation bound for `mvt.UnmarshalGzipped`, against the length of the INPUT -/
